@@ -193,16 +193,22 @@ Definition tres_eqb (a b : tres) : bool :=
   | _, _ => false
   end.
 
+(* str_to_time ends with time.gmtime(calendar.timegm(then)): a leap second written at the very end of year 9999
+   lands in year 10000, which time.gmtime refuses (ValueError) *)
+Definition Y10K : Z := 253402300800%Z.
+Definition renorm (f : fields) : tres :=
+  let v := timegm f in if (v <? Y10K)%Z then TVal v else TValueError.
+
 Definition str_to_secs (s : string) : tres :=
   if is_empty s then TEmpty     (* str_to_time returns 0, an int: calendar.timegm(0) is a TypeError *)
   else match strptime s with
-       | Some f => TVal (timegm f)
+       | Some f => renorm f
        | None =>
            match frag s with
            | None => TAttributeError           (* elem is None: elem.groups() *)
            | Some base =>
                match strptime (base ++ "Z") with
-               | Some f => TVal (timegm f)
+               | Some f => renorm f
                | None => TValueError
                end
            end
